@@ -30,6 +30,12 @@ pub struct RdpClient<S> {
 }
 
 impl<S: Read + Write> RdpClient<S> {
+    /// Verification hook: assemble a client from already connected layers
+    #[cfg(feature = "verif-hooks")]
+    pub fn from_layers(mcs: mcs::Client<S>, global: global::Client) -> Self {
+        RdpClient { mcs, global }
+    }
+
     /// Read a payload from the server
     /// RDpClient use a callback pattern that can be called more than once
     /// during a read call
